@@ -40,9 +40,9 @@ def gen_cases(rng, tier):
             else:
                 ops.append(["get", idxs, sz])
         v0 = rng.choice([0, 0, rng.getrandbits(40), rng.getrandbits(130)])
-        via = rng.choice(["bitarray", "memory", "memory_fresh", "facade"])      # facade: Cache.incr_bits / get_bits on a fresh key
+        via = rng.choice(["bitarray", "memory", "memory_fresh", "facade", "memory_lru"])      # facade: Cache.incr_bits / get_bits on a fresh key; memory_lru: a 2-slot store, another key written before every operation
         # memory_fresh: the key does not exist yet (v0 = 0) and another never-written key has just been incremented
-        cases.append({"kind": "bits", "via": via, "v0": 0 if via in ("memory_fresh", "facade") else v0, "ops": ops})
+        cases.append({"kind": "bits", "via": via, "v0": 0 if via in ("memory_fresh", "facade", "memory_lru") else v0, "ops": ops})
     if tier == "thorough":  # exhaustive sub-space: all (index<64, size<=6, |by|<=70) on a fixed seed array
         seed = 0x5A5A_F00F_1234_ABCD_0F0F_3C3C_9999_7777_1111_EEEE_8888_5555_AAAA_2468_1357_FFFF_0000_FEDC_BA98_7654_3210_0123_4567_89AB_CDEF
         for size in range(1, 7):
@@ -127,9 +127,9 @@ def run_impl(case):
                 mem.setup("mem://?check_interval=0")
                 await mem.init()
             else:
-                mem = Memory(check_interval=0)
+                mem = Memory(check_interval=0, size=2 if case["via"] == "memory_lru" else 1000)
                 await mem.init()
-            if case["via"] == "facade":
+            if case["via"] in ("facade", "memory_lru"):
                 pass
             elif case["via"] == "memory_fresh":
                 await mem.incr_bits("other", 0, 1, 5, size=3, by=3)
@@ -137,7 +137,9 @@ def run_impl(case):
             else:
                 mem._set("bits", Bitarray(str(case["v0"])))
             outs = []
-            for op in case["ops"]:
+            for n_op, op in enumerate(case["ops"]):
+                if case["via"] == "memory_lru" and n_op:      # reading or writing the bit field is a use: it is never the least recently used entry
+                    await mem.set("other%d" % n_op, n_op)
                 if op[0] == "incr":
                     outs.append(list(await mem.incr_bits("bits", *op[1], size=op[2], by=op[3])))
                 else:
